@@ -144,9 +144,9 @@ func expand(env *fw.Env, src string, raw json.RawMessage) []json.RawMessage {
 		if err := json.Unmarshal(g.C, &pc); err != nil {
 			panic(err)
 		}
-		rep, frames := 1500, 1500
+		rep, frames := 6000, 1500
 		if pc != "one" {
-			rep = 40
+			rep = 100
 		}
 		if g.Pl == "M" {
 			frames = 40
